@@ -58,6 +58,8 @@ def configs(tier, seed):
         cfgs.append(dict(kind='stft_dead', name='stft_dead L' + nm, L=L, S=S, style=style, kaldi=kaldi, K=K,
                          NMAX=(2 * L + S if tier == 'quick' else min(3 * L, 20))))
         cfgs.append(dict(kind='stft_guard', name='stft_guard L' + nm, L=L, S=S, style=style, kaldi=kaldi))
+    for (L, S), (style, kaldi) in itertools.product([(4, 2), (5, 3)] if tier == 'quick' else [(4, 2), (5, 3), (6, 3), (4, 4)], STYLES):
+        cfgs.append(dict(kind='stft_dtype', name='stft_dtype L%d S%d %s%s' % (L, S, style, '+kaldi' if kaldi else ''), L=L, S=S, style=style, kaldi=kaldi, NMAX=L + S + 1))
     for (S, M, D, style, tr) in si.si_grid(tier):
         nm = 'S%d M%d D%d %s' % (S, M, D, style)
         cfgs.append(dict(kind='si_reset', name='si_reset ' + nm, S=S, M=M, D=D, style=style, trans=tr, NMAX=6))
@@ -96,6 +98,108 @@ def _ints(m, names):
 
 
 # ------------------------------------------------------------------ STFT
+
+def _real_init_fields(ns, o, L, S, style, kaldi):
+    """state the real constructor allocates (the history buffer, and any field a hand-built instance does not know
+    about) is taken from the real __init__ run on a stub bank / window"""
+    LFB, WF = ns['LinearFilterBank'], ns['WindowFunction']
+
+    class StubBank(LFB):
+        is_real = True
+        is_analytic = False
+        is_zero_phase = True
+        num_filts = 1
+        sampling_rate = 1000
+        supports = ((-1, 1),)
+        supports_hz = ((100.0, 300.0),)
+
+        def get_impulse_response(s, i, w):
+            raise AssertionError
+
+        def get_frequency_response(s, i, w, half=False):
+            raise AssertionError
+
+        def get_truncated_response(s, i, w):
+            return (0, [1])
+
+    class StubWin(WF):
+        def get_impulse_response(s, width):
+            return 1
+    real = ns['ShortTimeFourierTransformFrameComputer'](StubBank(), frame_length_ms=L, frame_shift_ms=S, frame_style=style, kaldi_shift=kaldi,
+                                                        pad_to_nearest_power_of_two=False, window_function=StubWin())
+    assert real.frame_length == L and real.frame_shift == S
+    for k, v in real.__dict__.items():
+        if k not in o.__dict__ or k == '_buf':
+            o.__dict__[k] = v
+    return o
+
+
+def run_stft_dtype(cfg):
+    """alternating dtypes on one instance: a float32 utterance, then a float64 utterance in two chunks, against a fresh
+    instance fed the float64 utterance only.  Frames are compared as terms; a value that passed through a float32
+    buffer carries an uninterpreted CAST_f4 and differs."""
+    L, S, style, kaldi, NMAX = cfg['L'], cfg['S'], cfg['style'], cfg['kaldi'], cfg['NMAX']
+    ns = sc.load_compute()
+    viol = []
+    ob = dis = 0
+    names = ['N1', 'N2', 'c0']
+
+    def body():
+        c = Ctx.cur
+        N1, N2, c0 = z3.Int('N1'), z3.Int('N2'), z3.Int('c0')
+        c.inputs = [N1, N2, c0]
+        c.assume(N1 >= 1, N1 <= NMAX, N2 >= 0, N2 <= NMAX, c0 >= 0, c0 <= N2)
+        first32 = decide(z3.Bool('first_utterance_float32'))
+        try:
+            o, fr = sc.mk_stft(ns, L, S, style, kaldi, 'A')
+            _real_init_fields(ns, o, L, S, style, kaldi)
+            fresh, fr2 = sc.mk_stft(ns, L, S, style, kaldi, 'B')
+            _real_init_fields(ns, fresh, L, S, style, kaldi)
+            d1, d2 = ('f4', 'f8') if first32 else ('f8', 'f4')
+            o.compute_chunk(SArr(conc(SInt(N1)), lambda i: xa(i), d1, readonly=True))
+            o.finalize()
+            del fr[:]
+            for obj in (o, fresh):
+                obj.compute_chunk(SArr(conc(SInt(c0)), lambda i: sc.x(i), d2, readonly=True))
+                obj.compute_chunk(SArr(conc(SInt(N2 - c0)), lambda i: sc.x(c0 + i), d2, readonly=True))
+                obj.finalize()
+        except Exception as e:
+            symex.guard(e)
+            return ('exc', '%s: %s' % (type(e).__name__, e))
+        if len(fr) != len(fr2):
+            return ('count', len(fr), len(fr2))
+        bad = []
+        for a, b in zip(fr, fr2):
+            for p, q in zip(a, b):
+                if not p.eq(q):
+                    bad.append(p != q)
+        return ('ok', bad, first32)
+
+    for ctx, res in explore(body):
+        if res is None:
+            continue
+        ob += 1
+        base = dict(kind='stft_dtype', L=L, S=S, style=style, kaldi=kaldi)
+        if res[0] != 'ok':
+            viol.append(dict(base, what=res[0], detail=str(res[1:])[:200], first32=True, **_ints(ctx.model(), names)))
+            continue
+        if not res[1]:
+            dis += 1
+            continue
+        s = ctx.solver
+        s.push()
+        s.add(z3.Or(res[1]))
+        r = check_sat(s)
+        if r == 'sat':
+            viol.append(dict(base, what='frames of the second utterance differ from a fresh instance', first32=res[2], **_ints(s.model(), names)))
+        else:
+            dis += 1
+        s.pop()
+    for w in viol:
+        w['class'] = 'stft_dtype/%s/%s' % (style, w['what'][:20])
+    return dict(obligations=ob, discharged=dis, violations=viol, twin=dis > 0,
+                samples=[{'config': cfg['name'], 'obligation': 'float32 utterance then float64 utterance (and the reverse) == fresh instance, frame terms'}])
+
 
 def run_stft_reset(cfg):
     L, S, style, kaldi, NMAX = cfg['L'], cfg['S'], cfg['style'], cfg['kaldi'], cfg['NMAX']
@@ -528,7 +632,7 @@ def run_ast(cfg):
 
 def run_config(cfg):
     return {'stft_reset': run_stft_reset, 'stft_dead': run_stft_dead, 'stft_guard': run_stft_guard,
-            'si_reset': run_si_reset, 'si_dead': run_si_dead, 'si_guard': run_si_guard, 'ast': run_ast}[cfg['kind']](cfg)
+            'stft_dtype': run_stft_dtype, 'si_reset': run_si_reset, 'si_dead': run_si_dead, 'si_guard': run_si_guard, 'ast': run_ast}[cfg['kind']](cfg)
 
 
 # ------------------------------------------------------------------ replay on the real library
@@ -551,6 +655,27 @@ def replay(w):
     if k == 'ast':
         return {'reproduced': True, 'detail': w['what']}
     rng = np.random.RandomState(11)
+    if k == 'stft_dtype':
+        L, S, style, kaldi = w['L'], w['S'], w['style'], w['kaldi']
+        d1, d2 = (np.float32, np.float64) if w.get('first32', True) else (np.float64, np.float32)
+        worst = 0.0
+        for N1 in sorted(set([w.get('N1', 3), 1, L, 2 * L + 1])):
+            for N2 in sorted(set([w.get('N2', L), L, 2 * L + S, 3 * L + 1])):
+                x1 = rng.randn(N1).astype(d1)
+                x2 = (rng.randn(N2) * 3).astype(d2)
+                c0 = max(0, min(N2, w.get('c0', N2 // 2)))
+                c = sc.real_stft(L, S, style, kaldi)
+                try:
+                    c.compute_chunk(x1)
+                    c.finalize()
+                    a = _feats(c, x2, [c0, N2 - c0])
+                    b = _feats(sc.real_stft(L, S, style, kaldi), x2, [c0, N2 - c0])
+                except Exception as e:
+                    return {'reproduced': True, 'detail': 'raised %s: %s' % (type(e).__name__, e)}
+                if a.shape != b.shape or not np.array_equal(a, b):
+                    return {'reproduced': True, 'detail': 'L=%d S=%d %s kaldi=%s: after a %s utterance (N=%d) the %s utterance (N=%d, cuts [%d, %d]) is not bit-identical to a fresh instance (max diff %.3g)' % (
+                        L, S, style, kaldi, np.dtype(d1).name, N1, np.dtype(d2).name, N2, c0, N2 - c0, float(np.abs(a - b).max()) if a.shape == b.shape else float('nan'))}
+        return {'reproduced': False, 'detail': 'bit-identical to a fresh instance for alternating dtypes'}
     if k.startswith('stft'):
         L, S, style, kaldi = w['L'], w['S'], w['style'], w['kaldi']
         return _replay_with(k, lambda: sc.real_stft(L, S, style, kaldi), range(0, 3 * L + 2), [2 * L + 3, L, L // 2 + 1, 3 * L], rng)
